@@ -10,6 +10,7 @@ import traceback
 
 VERIF = os.path.dirname(os.path.dirname(os.path.abspath(__file__)))
 REPO = os.environ.get('VP_REPO', '/repo')
+OUT = os.environ.get('VP_OUT', VERIF)
 KNOWN = os.path.join(VERIF, 'known_findings.json')
 
 
@@ -175,8 +176,8 @@ class Report:
         'wall_s': round(time.time() - self.t0, 2), 'violations': len(new_viol),
         'exit_code': code,
     }
-    os.makedirs(os.path.join(VERIF, 'evidence'), exist_ok=True)
-    with open(os.path.join(VERIF, 'evidence', f'{pid}.json'), 'w') as f:
+    os.makedirs(os.path.join(OUT, 'evidence'), exist_ok=True)
+    with open(os.path.join(OUT, 'evidence', f'{pid}.json'), 'w') as f:
       json.dump(ev, f, indent=1, sort_keys=True)
       f.write('\n')
     for l in lines:
@@ -196,10 +197,10 @@ class Report:
 
 def write_replay(pid, payload):
   """store a counterexample; returns the path"""
-  os.makedirs(os.path.join(VERIF, 'replays'), exist_ok=True)
+  os.makedirs(os.path.join(OUT, 'replays'), exist_ok=True)
   blob = json.dumps(jsonable(payload), sort_keys=True, indent=1)
   h = hashlib.sha256(blob.encode()).hexdigest()[:12]
-  path = os.path.join(VERIF, 'replays', f'{pid}-{h}.json')
+  path = os.path.join(OUT, 'replays', f'{pid}-{h}.json')
   with open(path, 'w') as f:
     f.write(blob + '\n')
   return path
